@@ -373,6 +373,25 @@ large_mul_h!(c12_large_mul_1x2, 1, 2);
 large_mul_h!(c12_large_mul_2x1, 2, 1);
 large_mul_h!(c12_large_mul_2x2, 2, 2);
 
+/// The `*=` operators (Bigint *= &Bigint, VecType *= &[Limb]) are large_mul + unwrap.
+#[kani::proof]
+#[kani::unwind(10)]
+#[kani::stub(scalar_mul, stub_scalar_mul)]
+fn c12_mul_assign_wrappers() {
+    reset_uf();
+    let (x, rx, _) = any_vec(1);
+    let y: Limb = kani::any();
+    declare_product(x[0], y);
+    let (expect, _) = ref_mul_limb(&rx, y, uf_mul2);
+    let mut a = Bigint { data: vec_from(&[x[0]]) };
+    let b = Bigint { data: vec_from(&[y]) };
+    a *= &b;
+    assert!(ref_eq(&value_of(&a.data), &expect), "C12 Bigint *= &Bigint multiplies the values");
+    let mut v = vec_from(&[x[0]]);
+    v *= &[y][..];
+    assert!(ref_eq(&value_of(&v), &expect), "C12 VecType *= &[Limb] multiplies the values");
+}
+
 // ---------------------------------------------------------------- shifts
 
 /// shl_bits(x, n): x <= 3 limbs, 1 <= n <= 63: value' = value * 2^n
